@@ -25,8 +25,8 @@ var docs = []string{
 }
 
 // paths: the existing leaves of the three documents, a new top-level key, a new nested key, an
-// array index beyond the end
-var paths = []string{"a", "b.c", "0", "1.k", "a.1", "n", "b.n", "a.5"}
+// array index beyond the end, and a path with three missing levels
+var paths = []string{"a", "b.c", "0", "1.k", "a.1", "n", "b.n", "a.5", "p.q.r"}
 
 type value struct {
 	tok string // witness token
